@@ -14,3 +14,5 @@ func verifWhen(when time.Time) time.Time { return when }
 func verifRootOrder(roots []string) []string { return roots }
 
 func verifRetire(context.Context, *DB, string, map[string][]byte) bool { return false }
+
+func verifDeleteOrder(names []string) []string { return names }
